@@ -248,7 +248,7 @@ class VMap(V):
   """Mutable map with symbolic keys: presence + value arrays.  `none` (if not
   None) is an array saying the stored value is Python None; `stamp` (if not
   None) gives OrderedDict recency as a logical time stamp per key."""
-  __slots__ = ('has', 'val', 'none', 'stamp', 'clock', 'ksort', 'vkind', 'size', 'guard', 'keys_seen')
+  __slots__ = ('has', 'val', 'none', 'stamp', 'clock', 'ksort', 'vkind', 'size', 'guard', 'keys_seen', 'is_counter')
 
   def __init__(self, has, val, ksort, vkind, none=None, stamp=None, clock=None,
                size=None):
@@ -256,6 +256,7 @@ class VMap(V):
     self.none, self.stamp, self.clock, self.size = none, stamp, clock, size
     self.keys_seen = []
     self.guard = None      # VLock that must be held for every access (lock discipline)
+    self.is_counter = False     # collections.Counter: a missing key counts 0, update() ADDS the other counter
 
 
 class VLock(V):
